@@ -14,7 +14,10 @@ RULE = ("case = (raw numeric type, scale graph of 1..MaxScales scales over Linea
 CONFIGS = {
     "quick": [("TdmsScaling", "TdmsScaling.cfg", {"MaxScales": 2, "RawTypes": '{"int16", "uint8", "float32"}'}),
               ("TdmsScaling", "TdmsScaling.cfg", {"MaxScales": 1, "RawTypes": '{"int32", "float64"}', "Shadow": "{TRUE}",
-                                                  "UnaryKinds": '{"Linear", "NoOp"}', "BinaryKinds": "{}"})],
+                                                  "UnaryKinds": '{"Linear", "NoOp"}', "BinaryKinds": "{}"}),
+              # a chain of 12 scales (more scales than one digit), count given and inferred from the property names
+              ("TdmsScaling", "TdmsScaling.cfg", {"MaxScales": 1, "RawTypes": '{"int16"}', "UnaryKinds": '{"NoOp"}',
+                                                  "BinaryKinds": "{}", "LongChains": "{11, 12}"})],
     "thorough": [("TdmsScaling", "TdmsScaling.cfg", {"MaxScales": 2, "RawTypes": '{"int8", "int16", "int32", "int64", '
                                                      '"uint8", "uint16", "uint32", "uint64", "float32", "float64"}'}),
                  ("TdmsScaling", "TdmsScaling.cfg", {"MaxScales": 3, "RawTypes": '{"int16"}',
